@@ -66,6 +66,15 @@ def run(tier, seed, replay=None):
     # start-solution construction: single-stop units only (the order generator goroutine of the known finding never starts)
     n2 = 12 if tier == "quick" else 200
     cases2 = S.make_solve_cases(seed * 31 + 1212, n2, settings_starts, feats={"precedence": False}, size="medium")
+    for k, cc in enumerate(FW.load_corpus(PID)):          # minimised past failures run first
+        m = cc["model"]
+        m["arcs"] = [tuple(a) for a in m.get("arcs", [])]
+        m["user"] = [tuple(u) for u in m.get("user", [])]
+        for u in m["units"]:
+            u["arcs"] = [tuple(a) for a in u["arcs"]]
+        for st_ in m["stops"]:
+            st_["windows"] = [tuple(w) for w in st_["windows"]]
+        cases2.insert(0, {"id": "corpus%d" % k, "model": m, "settings": cc["settings"]})
     runs2, rc2, err2 = S.run_solve(cases2, "c12s_" + tier, timeout=3000)
     chk.ob("harness solve (several start solutions, jittered copies) exits normally", rc2 == 0, err2[-400:])
     nd2, ng2 = compare_reps(chk, runs2, cases2)
